@@ -95,6 +95,13 @@ class HandleModel:
             return [('', ('bytes', args[0][1], sym(f'len({args[0][1]})')), [])]
         if (name.endswith('::as_bytes') or name.endswith('Deref>::deref')) and args and isinstance(args[0], tuple) and args[0][0] == 'bytes':
             return [('', args[0], [])]
+        if re.search(r'From<bool> for (usize|u8|u32|u64|isize|i32|i64)>::from$', name) and len(args) == 1 and isinstance(args[0], tuple) and args[0] and args[0][0] == 'cond':
+            # usize::from(cond): 1 when the condition holds, 0 otherwise (a case split on the condition, unless it is already decided on this path)
+            from .symex import known_truth
+            kt = known_truth(p.assume, args[0][1])
+            if kt is not None:
+                return [('', Aff({}, int(kt)), [])]
+            return [('from(bool) = 1', Aff({}, 1), [(args[0][1], True)]), ('from(bool) = 0', Aff(), [(args[0][1], False)])]
         if name.endswith('saturating_sub') and len(args) == 2 and isinstance(args[0], Aff) and isinstance(args[1], Aff):
             a, b = args
             d = a - b
